@@ -5,7 +5,7 @@ import vlib
 
 LEVEL = "proof"
 HERE = os.path.dirname(os.path.abspath(__file__))
-MODELLED = ("ptr", "hex2bin", "atoi2", "unesc", "num")   # commands answered by the extracted model as well
+MODELLED = ("ptr", "hex2bin", "atoi2", "unesc", "num", "xstr")   # commands answered by the extracted model as well
 ERANGE, EINVAL = 34, 22
 
 
@@ -402,10 +402,12 @@ def san_key(err):
         return "asan:%s" % m.group(1)
     m = re.search(r"([\w./-]+):(\d+):\d+: runtime error: ([^\n]*)", err)
     if m:
-        msg = re.sub(r"-?\d[\d.e+]*", "N", m.group(3))
-        msg = re.sub(r"0x[0-9a-f]+", "P", msg)
+        msg = re.sub(r"0x[0-9a-f]+", "P", m.group(3))
+        msg = re.sub(r"-?\d[\d.e+]*", "N", msg)
         fr = re.findall(r"#0 0x[0-9a-f]+ in (\S+)", err)
         return "ubsan:%s:%s" % (fr[0] if fr else os.path.basename(m.group(1)), msg[:60].strip())
+    if "hard rss limit exhausted" in err:
+        return "asan:memory-exhausted(rss>1.5GB)"
     if "Assertion" in err:
         m = re.search(r"(\w+): Assertion", err)
         return "assert:%s" % (m.group(1) if m else "?")
@@ -413,6 +415,18 @@ def san_key(err):
 
 
 CPU_S = 4      # CPU seconds one harness process may use (a batch normally needs a few milliseconds)
+HUNG = set()   # commands with a confirmed non-terminating query in this run: their remaining queries are not run again
+
+
+def _run(cmd, text, timeout, env):
+    """like vlib.run_lines, but keeps the HEAD of stderr as well (sanitizer reports start with the verdict)"""
+    import subprocess
+    try:
+        p = subprocess.run(cmd, input=text.encode(), stdout=subprocess.PIPE, stderr=subprocess.PIPE, timeout=timeout, env=env)
+        err = p.stderr.decode("latin-1")
+        return p.returncode, p.stdout.decode("latin-1").split("\n"), (err if len(err) < 12000 else err[:8000] + "\n...\n" + err[-3000:])
+    except subprocess.TimeoutExpired as e:
+        return 124, (e.stdout or b"").decode("latin-1").split("\n"), "[timeout]"
 
 
 def run_batch(exe, lines, env_extra, timeout):
@@ -420,36 +434,44 @@ def run_batch(exe, lines, env_extra, timeout):
     the query that killed it; answers are line buffered, so the culprit is the query after the last complete answer."""
     env = dict(os.environ)
     env.update(SAN_ENV)
-    env["ASAN_OPTIONS"] = "detect_leaks=0:allocator_may_return_null=1:hard_rss_limit_mb=3000:" + env_extra.get("ASAN_OPTIONS", "")
+    env["ASAN_OPTIONS"] = "detect_leaks=0:allocator_may_return_null=1:hard_rss_limit_mb=1500:" + env_extra.get("ASAN_OPTIONS", "")
     cmd = ["/bin/sh", "-c", "ulimit -t %d; exec \"$0\"" % CPU_S, exe]
     ans = [None] * len(lines)
     finds = []
     start = 0
     while start < len(lines):
-        rc, out, err = vlib.run_lines(cmd, "\n".join(lines[start:]) + "\n", timeout=timeout, env=env)
+        if HUNG:
+            while start < len(lines) and lines[start].split()[1] in HUNG:
+                start += 1
+            if start >= len(lines):
+                break
+        todo = [l if l.split()[1] not in HUNG else "" for l in lines[start:]]     # an empty line is answered by an empty line
+        rc, out, err = _run(cmd, "\n".join(todo) + "\n", timeout, env)
         k = len(out) - 1                      # complete answers = number of newlines printed
         rem = len(lines) - start
         if rc == 0:
             for i in range(min(k, rem)):
-                ans[start + i] = out[i]
+                ans[start + i] = out[i] if todo[i] else None
             break
         k = min(k, rem - 1)
         for i in range(k):
-            ans[start + i] = out[i]
+            ans[start + i] = out[i] if todo[i] else None
         key = san_key(err)
         if key is None:
-            if rc in (124, -24, -9, 137, 152) or "rss limit" in err.lower():
+            if rc in (124, -24, -9, 137, 152):
                 # CPU limit / wall clock: confirm on the query alone before calling it non-termination
-                rc1, out1, err1 = vlib.run_lines(cmd, lines[start + k] + "\n", timeout=timeout, env=env)
+                rc1, out1, err1 = _run(cmd, lines[start + k] + "\n", timeout, env)
                 if rc1 == 0 and len(out1) >= 2:
                     ans[start + k] = out1[0]
                     start = start + k + 1
                     continue
                 key = san_key(err1) or "timeout:%s" % lines[start + k].split()[1]
+                if key.startswith("timeout:"):
+                    HUNG.add(lines[start + k].split()[1])
                 err = err1 or err
             else:
                 key = "crash:rc=%d" % rc
-        finds.append((start + k, key, err[-1500:]))
+        finds.append((start + k, key, err[:1500] + err[-1500:] if len(err) > 3000 else err))
         start = start + k + 1
     return ans, finds
 
@@ -483,11 +505,12 @@ def load_corpus():
 
 
 def check(run):
+    HUNG.clear()
     rng = run.rng
     proofs_ok = run.proofs()
     asan = vlib.build_harness("h_safety", "asan")
     model = vlib.build_model("safety")
-    n = 300 if run.tier == "quick" else 6000
+    n = 300 if run.tier == "quick" else 40000
     if not proofs_ok:
         n *= 10
     cmds = load_corpus() + gen(rng, n)
@@ -618,6 +641,8 @@ def replay(run, path):
     print("errno %d, other heap fill:" % r.get("errno", 0), ans[0], [k for _, k, _ in finds])
     print("recorded:", r.get("key"), r.get("note"))
     if finds or finds0:
-        print((finds or finds0)[0][2][-600:])
+        rep = (finds or finds0)[0][2].split("\n")
+        for l in [l for l in rep if re.search(r"ERROR|runtime error|^\s+#[0-3] |SUMMARY|is located|Assertion", l)][:10]:
+            print(l[:200])
         return 1
     return 1 if ans[0] != ans0[0] else 0
